@@ -14569,12 +14569,25 @@ func (l *Lowerer) lowerTextureSampleCompare(args []parser.Expr, target *[]ir.Sta
 	}
 	l.convertExpressionToFloat(depthRef) // depth_ref must be float
 
+	// Parse optional offset argument (const_expr of type vecN<i32>)
+	var offset *ir.ExpressionHandle
+	if depthRefIdx+1 < len(args) {
+		off, offErr := l.lowerExpression(args[depthRefIdx+1], target)
+		if offErr != nil {
+			return 0, offErr
+		}
+		// Concretize offset to i32 (texture offsets are always signed integer)
+		l.concretizeExpressionToScalar(off, ir.ScalarType{Kind: ir.ScalarSint, Width: 4})
+		offset = &off
+	}
+
 	return l.addExpression(ir.Expression{
 		Kind: ir.ExprImageSample{
 			Image:      image,
 			Sampler:    sampler,
 			Coordinate: coord,
 			ArrayIndex: arrayIndex,
+			Offset:     offset,
 			Level:      level,
 			DepthRef:   &depthRef,
 		},
